@@ -541,7 +541,7 @@ pub fn c07_case(data: &[u8]) -> c07::Scenario {
         let len = d.range(8, 6000);
         let ncuts = d.range(1, 4) as usize;
         let maxcut = (len as usize / (ncuts + 1)).max(1) as u32;
-        trains.push(c07::TrainSpec { id: (r as u32 + k as u32 * mult) as u8, lab: lab(&mut d, false, false), ptype: ptype_user(&mut d), pdu: Pdu { len, seed: d.u32() | 4 }, cuts: (0..ncuts).map(|_| d.range(1, maxcut.min(1500)) as u16).collect() });
+        trains.push(c07::TrainSpec { id: (r as u32 + k as u32 * mult) as u8, lab: lab(&mut d, false, false), ptype: ptype_user(&mut d), pdu: Pdu { len, seed: d.u32() | 4 }, cuts: (0..ncuts).map(|_| d.range(1, maxcut.min(1500)) as u16).collect(), ext: d.bool() });
     }
     let total: usize = trains.iter().map(|t| t.cuts.len() + 1).sum();
     let merge = (0..total + 4).map(|_| d.range(0, n as u32 - 1) as u8).collect();
